@@ -420,18 +420,14 @@ type ordJust struct {
 
 var justifiedORD = map[string]ordJust{
 	"analysis.fetchEnumsAndUnions|p.Imports": {
-		why: "last-writer-wins merge keyed by the named type: a key owned by package A can only be written from a package B that imports A, and B's visit descends into A after B's own merge, so after every visit the entry is A's own (complete) one, whatever the order",
+		why: "the walk merges, per visited package, tables whose keys are named types declared in that very package (fetchPkgEnums keeps only constants of locally declared types; fetchPkgUnions keys are the package's own type names): distinct packages write disjoint keys and a package always writes the same values, so neither the order nor the number of visits matters",
 		side: func(c *ordCtx, rs *ast.RangeStmt) (bool, string) {
-			// the recursion happens for every non-ignored import (no other skip), after the merges of the current package
+			// (1) the loop body only skips ignored packages and recurses
 			for _, st := range rs.Body.List {
 				switch s := st.(type) {
 				case *ast.IfStmt:
-					call, ok := ast.Unparen(s.Cond).(*ast.CallExpr)
-					if !ok || s.Else != nil || !terminates(s.Body) {
-						return false, "the import loop has a skip condition other than a plain selector test"
-					}
-					if fn := calleeOf(c.info, call); fn == nil || fn.Name() != "Ignore" {
-						return false, "the import loop skips on " + es(s.Cond) + " (only the module-prefix selector may skip an import: a visited-set breaks the re-merge argument)"
+					if s.Else != nil || !terminates(s.Body) {
+						return false, "the import loop has a conditional effect other than skipping a package"
 					}
 				case *ast.ExprStmt:
 					if _, ok := s.X.(*ast.CallExpr); !ok {
@@ -441,24 +437,41 @@ var justifiedORD = map[string]ordJust{
 					return false, fmt.Sprintf("unexpected %T in the import loop", st)
 				}
 			}
-			// enclosing closure: no early return before the import loop, merges precede the loop
-			var lit *ast.FuncLit
-			ast.Inspect(c.fd.Body, func(n ast.Node) bool {
-				if fl, ok := n.(*ast.FuncLit); ok && fl.Body.Pos() <= rs.Pos() && rs.End() <= fl.Body.End() {
-					lit = fl
+			// (2) key ownership in fetchPkgEnums: the append of a member is guarded by `named.Obj().Pkg() == pa.Types`
+			fe := c.w.Func("analysis.fetchPkgEnums")
+			if fe == nil {
+				return false, "fetchPkgEnums not found"
+			}
+			owned := false
+			ast.Inspect(fe.Decl.Body, func(n ast.Node) bool {
+				be, ok := n.(*ast.BinaryExpr)
+				if !ok || (be.Op != token.NEQ && be.Op != token.EQL) {
+					return true
+				}
+				l, r := es(be.X), es(be.Y)
+				if (strings.HasSuffix(l, ".Obj().Pkg()") && strings.HasSuffix(r, ".Types")) || (strings.HasSuffix(r, ".Obj().Pkg()") && strings.HasSuffix(l, ".Types")) {
+					owned = true
 				}
 				return true
 			})
-			if lit == nil {
-				return false, "import loop is not inside the walking closure"
+			if !owned {
+				return false, "fetchPkgEnums no longer restricts enum keys to types declared in the visited package: a type whose constants live in two packages gets the members of whichever package is merged last"
 			}
-			for _, st := range lit.Body.List {
-				if st == ast.Stmt(rs) {
-					break
+			// (3) union keys are the package's own type names
+			fu := c.w.Func("analysis.fetchPkgUnions")
+			an := c.w.Func("analysis.allNamedTypes")
+			if fu == nil || an == nil {
+				return false, "fetchPkgUnions/allNamedTypes not found"
+			}
+			usesOwn := false
+			ast.Inspect(fu.Decl.Body, func(n ast.Node) bool {
+				if call, ok := n.(*ast.CallExpr); ok && calleeOf(fu.Pkg.TypesInfo, call) == an.Obj {
+					usesOwn = true
 				}
-				if _, ok := st.(*ast.RangeStmt); !ok {
-					return false, fmt.Sprintf("statement %T precedes the import loop in the walker (an early exit or visited test defeats the re-merge argument)", st)
-				}
+				return true
+			})
+			if !usesOwn {
+				return false, "fetchPkgUnions no longer takes its candidates from the visited package's own scope"
 			}
 			return true, ""
 		},
